@@ -50,12 +50,14 @@ def gen_grammar(rng, newlines=False):
         alts = []
         for _ in range(rng.choice([1, 2, 2])):
             s = gen_seq(rng, names, 0, templates)
+            if '?' in mod and rng.random() < 0.2:
+                s = '[%s]' % rng.choice(list(TERMS))       # a ?rule whose whole alternative is one optional: collapses to the None placeholder
             if not n.startswith('_') and rng.random() < 0.2: s += ' -> al%d' % rng.randint(0, 2)
             alts.append(s)
         pr = '.%d' % rng.randint(1, 2) if rng.random() < 0.1 else ''
         lines.append('%s%s%s: %s' % (mod, n, pr, '\n   | '.join(alts)))
     if templates:
-        lines.append('%stp{x}: %s' % (rng.choice(['', '?', '!']), rng.choice(['x "," x', 'x+', '"<" x ">"', 'x [B]', '(x | C)~1..2'])))
+        lines.append('%stp{x}: %s' % (rng.choice(['', '?', '!']), rng.choice(['x "," x', 'x+', '"<" x ">"', 'x [B]', '(x | C)~1..2', '[x] "<" [B]', 'x ["," x]'])))
     for k, v in TERMS.items(): lines.append('%s: %s' % (k, v))
     lines.append('%ignore /[ \\n]+/' if newlines else '%ignore " "')
     return '\n'.join(lines) + '\n'
@@ -129,7 +131,9 @@ def to_forest(raw, p, maybe_placeholders):
 
 
 def label_of(rule):
-    return str(rule.alias or rule.options.template_source or rule.origin.name)
+    """the documented node name, from the *source-level* name: alias, else the rule name with template arguments stripped (independent of RuleOptions.template_source)"""
+    import re
+    return str(rule.alias or re.sub(r'\{.*\}$', '', rule.origin.name))
 
 
 def span_of(raw):
